@@ -561,7 +561,8 @@ def triage(ctx, name, results, absorbed, samples, frontier=False):
 # ------------------------------------------------------------------ run
 def run(ctx):
     ctx.level = "proof"
-    ctx.lean_stage([], ["Verif.Props.C02"])
+    ctx.lean_stage([], ["Verif.Props.C02", "Verif.Props.Coalesce"])
+    ctx.block("coalescelib", "coalesce")        # coalesce pass: content preserved, no adjacent text (Verif.Props.Coalesce)
     t0 = time.time()
     fstats, mism, oracle = function_level(ctx)
     fstats["wall_s"] = round(time.time() - t0, 1)
